@@ -322,6 +322,113 @@ def check_commentary(seed, count):
     return dict(count=count, viols=viols)
 
 
+# ------------------------------------------------------------------------------------------------
+# decimal chip values (part of C16's quantifier; the lock-step stream plays with whole chips, the model being
+# over the integers): hands with Decimal chips, dealt so that ties and hi/lo splits are frequent, are saved,
+# loaded and replayed; the replay must end with the very same stacks and payoffs
+def play_decimal(seed):
+    """(game, state) for one finished hand with decimal chips, or None"""
+    import random
+    from decimal import Decimal as D
+    from pokerkit import (Automation, FixedLimitOmahaHoldemHighLowSplitEightOrBetter, NoLimitTexasHoldem,
+                          FixedLimitSevenCardStudHighLowSplitEightOrBetter, PotLimitOmahaHoldem)
+    rng = random.Random(seed)
+    unit = rng.choice([D('0.05'), D('0.25'), D('0.5'), D('0.01'), D('2.5')])
+    autos = tuple(a for a in Automation if a not in (Automation.HOLE_DEALING, Automation.HOLE_CARDS_SHOWING_OR_MUCKING))
+    n = rng.randint(2, 4)
+    kind = rng.choice(['NT', 'NT', 'FO8', 'PO', 'F7S8'])
+    stacks = [unit * rng.randint(30, 400) for _ in range(n)]
+    ante = rng.choice([0, 0, unit])
+    if kind == 'NT':
+        game = NoLimitTexasHoldem(autos, True, ante, (unit, 2 * unit), 2 * unit)
+    elif kind == 'PO':
+        game = PotLimitOmahaHoldem(autos, True, ante, (unit, 2 * unit), 2 * unit)
+    elif kind == 'FO8':
+        game = FixedLimitOmahaHoldemHighLowSplitEightOrBetter(autos, True, ante, (unit, 2 * unit), 2 * unit, 4 * unit)
+    else:
+        game = FixedLimitSevenCardStudHighLowSplitEightOrBetter(autos, True, unit, unit, 2 * unit, 4 * unit)
+    with warnings.catch_warnings():
+        warnings.simplefilter('ignore')
+        try:
+            s = game(stacks, n)
+        except Exception:  # noqa: BLE001
+            return None
+        mirror = rng.random() < 0.5 and kind in ('NT',)
+        guard = 0
+        while s.status and guard < 400:
+            guard += 1
+            try:
+                if s.can_deal_hole():
+                    if mirror and kind == 'NT':
+                        # the same ranks in other suits: the board plays or the hands tie
+                        i = s.hole_dealee_index
+                        suits = 'cdhs'
+                        s.deal_hole(f'K{suits[i % 4]}Q{suits[(i + 1) % 4]}')
+                    else:
+                        s.deal_hole()
+                elif s.can_show_or_muck_hole_cards():
+                    s.show_or_muck_hole_cards(True)
+                elif s.actor_index is not None:
+                    r = rng.random()
+                    if r < 0.08 and s.can_fold() and sum(s.statuses) > 2:
+                        s.fold()
+                    elif r < 0.30 and s.can_complete_bet_or_raise_to():
+                        lo = s.min_completion_betting_or_raising_to_amount
+                        hi = s.max_completion_betting_or_raising_to_amount
+                        s.complete_bet_or_raise_to(rng.choice([lo, hi, lo]))
+                    elif s.can_post_bring_in() and r < 0.8:
+                        s.post_bring_in()
+                    elif s.can_check_or_call():
+                        s.check_or_call()
+                    else:
+                        s.complete_bet_or_raise_to()
+                else:
+                    break
+            except Exception:  # noqa: BLE001
+                return None
+    if s.status:
+        return None
+    return game, s
+
+
+def decimal_violations(seed):
+    from pokerkit import HandHistory
+    r = play_decimal(seed)
+    if r is None:
+        return None
+    game, s = r
+    try:
+        with warnings.catch_warnings():
+            warnings.simplefilter('ignore')
+            hh = HandHistory.from_game_state(game, s)
+            text = hh.dumps()
+            hh2 = HandHistory.loads(text)
+            again = hh2.dumps()
+            final = list(hh2)[-1]
+    except Exception as ex:  # noqa: BLE001
+        return [(f'decimal:raises:{type(ex).__name__}', f'seed {seed}: {type(ex).__name__}: {ex}')]
+    out = []
+    if again != text:
+        out.append(('decimal:resave_differs', f'seed {seed}: saving the loaded history again changes the text'))
+    if final.status or [x for x in final.stacks] != [x for x in s.stacks] or list(final.payoffs) != list(s.payoffs):
+        out.append(('decimal:stacks_differ', f'seed {seed}: played stacks {list(map(str, s.stacks))} payoffs '
+                    f'{list(map(str, s.payoffs))}, replayed {list(map(str, final.stacks))} payoffs {list(map(str, final.payoffs))}'))
+    return out
+
+
+def check_decimal(seed, count):
+    viols, played, split = [], 0, 0
+    for i in range(count):
+        v = decimal_violations(seed * 100019 + i)
+        if v is None:
+            continue
+        played += 1
+        for sig, detail in v:
+            viols.append(dict(property='C16', clause='replay', signature=sig, detail=detail,
+                              script=[], valid=[], meta={'decimal_seed': seed * 100019 + i}))
+    return dict(count=played, viols=viols)
+
+
 import monitors as _m  # noqa: E402
 
 _m.ALL['C16'] = C16Phh
